@@ -3,6 +3,8 @@
 A spec is {"dtype", "leaves": [{"name","shape","rg","vals"}], "nodes": [{"op","in","out","p"}]}.
 Everything is drawn from the random.Random passed in; only lists are iterated.
 """
+import copy
+
 from .model import MULTI_OUT, Model, numel
 
 LEAF_SHAPES = [
@@ -62,8 +64,13 @@ class Gen:
         name = self.fresh()
         vals = [_val(rng) for _ in range(numel(shape))]
         leaf = {"name": name, "shape": list(shape), "rg": bool(rg), "vals": vals}
-        if len(shape) >= 2 and rng.random() < 0.2:
+        r_l = rng.random()
+        if len(shape) >= 2 and r_l < 0.2:
             leaf["layout"] = "t"
+        elif r_l > 0.88 and numel(shape) >= 1:
+            leaf["layout"] = "s"
+        if rg and rng.random() < 0.3:
+            leaf["kind"] = "param"  # torch.nn.Parameter, the most common kind of leaf in user code
         self.spec["leaves"].append(leaf)
         self.shape[name] = tuple(shape)
         self.anc[name] = {name}
@@ -101,7 +108,10 @@ class Gen:
             self.probe_tags.append(tag)
             hostile = rng.random() < self.p_hostile
             saves = rng.random() < 0.5
-            (out,) = self._emit("probe", [name], {"tag": tag, "hostile": hostile, "saves": saves})
+            p = {"tag": tag, "hostile": hostile, "saves": saves}
+            if not hostile and rng.random() < 0.25:
+                p = {"tag": tag, "hostile": False, "saves": False, "hook": True}
+            (out,) = self._emit("probe", [name], p)
             return out
         return name
 
@@ -412,7 +422,24 @@ def gen_mtl(rng, dtype="float64", p_probe=0.0, p_hostile=0.0, n_tasks=None, allo
 
     losses = []
     task_leaf_use = []
+    head_nodes = []
     for t in range(n_tasks):
+        if t > 0 and head_nodes and rng.random() < 0.1:
+            # a structural copy of the previous head: distinct graph nodes, bit-identical loss value
+            # (numeric coincidences between objectives do happen: identically initialised heads)
+            start, end = head_nodes[-1]
+            mapping = {}
+            for node in list(g.spec["nodes"][start:end]):
+                ins = [mapping.get(x, x) for x in node["in"]]
+                outs = g._emit(node["op"], ins, copy.deepcopy(node.get("p", {})), nout=len(node["out"]))
+                for a, b in zip(node["out"], outs):
+                    mapping[a] = b
+            head_nodes.append((end, len(g.spec["nodes"])))
+            losses.append(mapping[losses[-1]])
+            task_leaf_use.append(list(task_leaf_use[-1]))
+            head_leaves[t] = list(head_leaves[t])  # its own leaves stay unused by the copy
+            continue
+        n_before = len(g.spec["nodes"])
         own = list(head_leaves[t])
         extra = []
         if allow_shared_task_params and t > 0 and rng.random() < 0.3:
@@ -451,6 +478,7 @@ def gen_mtl(rng, dtype="float64", p_probe=0.0, p_hostile=0.0, n_tasks=None, allo
             (loss,) = g._emit("reshape", [loss], {"shape": []})
         losses.append(loss)
         task_leaf_use.append(own + extra)
+        head_nodes.append((n_before, len(g.spec["nodes"])))
     roles = {
         "features": features,
         "losses": losses,
